@@ -1,0 +1,45 @@
+// Copyright 2024 The Kubernetes Authors.
+// SPDX-License-Identifier: Apache-2.0
+
+//go:build verif
+
+package krusty
+
+import (
+	"sort"
+
+	"sigs.k8s.io/kustomize/api/internal/accumulator"
+	"sigs.k8s.io/kustomize/api/internal/loader"
+	"sigs.k8s.io/kustomize/kyaml/filesys"
+)
+
+// VerifCrdConfig exposes accumulator.LoadConfigFromCRDs to the verification
+// harness (build tag "verif" only; not part of any normal build): the field
+// specs derived from the CRD definition files, as sorted lines of text.
+func VerifCrdConfig(fSys filesys.FileSystem, root string, paths []string) ([]string, error) {
+	ldr, err := loader.NewLoader(loader.RestrictionRootOnly, root, fSys)
+	if err != nil {
+		return nil, err
+	}
+	tc, err := accumulator.LoadConfigFromCRDs(ldr, paths)
+	if err != nil {
+		return nil, err
+	}
+	var out []string
+	for _, fs := range tc.CommonAnnotations {
+		out = append(out, "annotation "+fs.Kind+" "+fs.Path)
+	}
+	for _, fs := range tc.CommonLabels {
+		out = append(out, "label "+fs.Kind+" "+fs.Path)
+	}
+	for _, fs := range tc.NamePrefix {
+		out = append(out, "prefix "+fs.Kind+" "+fs.Path)
+	}
+	for _, nbr := range tc.NameReference {
+		for _, fs := range nbr.Referrers {
+			out = append(out, "nameref "+nbr.Kind+" "+nbr.Version+" "+fs.Kind+" "+fs.Path)
+		}
+	}
+	sort.Strings(out)
+	return out, nil
+}
